@@ -127,6 +127,7 @@ func (w *world) drain(r *rand.Rand) bool {
 			w.resumeActor(ps[i])
 			continue
 		}
+		w.midflightStarvation()
 		progressed := false
 		for _, f := range w.connsSnapshot() {
 			w.mu.Lock()
@@ -161,7 +162,6 @@ func (w *world) quiesce(r *rand.Rand, withProbe bool) bool {
 	// Callers still inside DC.Invoke now are blocked in acquire with nothing left
 	// that could serve them except capacity the pool should already have.
 	if act := w.activeCallers(); len(act) > 0 {
-		snap := w.dc.VerifSnapshot()
 		for _, a := range act {
 			w.mu.Lock()
 			pos := a.pos
@@ -172,19 +172,19 @@ func (w *world) quiesce(r *rand.Rand, withProbe bool) bool {
 				w.mu.Unlock()
 				continue
 			}
-			if pos != "waiting" && pos != "creating" {
-				// not parked in one of acquire's selects: the position is not one the
-				// starvation oracle is defined for
+			class, detail, verdict := w.confirmStarved(a, true)
+			switch verdict {
+			case "starved":
 				w.mu.Lock()
-				w.inconcl = append(w.inconcl, fmt.Sprintf("%s blocked at an unexpected position (%s) after drain", a.name(), pos))
+				w.violate("C28", "starved-waiter|"+class, fmt.Sprintf("%s blocked in acquire's 3rd-case select at a fully drained state: %s", a.name(), detail))
 				w.mu.Unlock()
-				continue
+			case "not":
+				// it moved on by itself: nothing to report, the drain below completes it
+			default:
+				w.mu.Lock()
+				w.inconcl = append(w.inconcl, fmt.Sprintf("%s still inside DC.Invoke after drain but starvation not confirmed (%s): %s", a.name(), pos, detail))
+				w.mu.Unlock()
 			}
-			class := w.capacityClass(snap)
-			w.mu.Lock()
-			w.violate("C28", "starved-waiter|"+class, fmt.Sprintf("%s blocked in acquire (%s) at a fully drained state: total=%d max=%d free=%v waiters=%d; %s",
-				a.name(), pos, snap.Total, snap.Max, snap.FreeIDs, snap.Waiters, w.connSummaryLocked()))
-			w.mu.Unlock()
 		}
 		for _, a := range act {
 			w.cancelCaller(a)
@@ -234,7 +234,39 @@ func (w *world) connSummaryLocked() string {
 // (in_use = in_handover = 0 there): every live connection is idle in `free`,
 // total equals the number of live connections, no waiter entry remains.
 func (w *world) conservation() {
-	snap := w.dc.VerifSnapshot()
+	// The snapshot must be the same in two consecutive settled states with no
+	// boundary or hook event in between; otherwise retry, finally inconclusive.
+	var snap pool.VerifPoolSnapshot
+	confirmed := false
+	for attempt := 0; attempt < 5 && !confirmed; attempt++ {
+		if !w.settle() {
+			return
+		}
+		w.mu.Lock()
+		c1 := w.clock
+		w.mu.Unlock()
+		s1 := w.dc.VerifSnapshot()
+		if !w.settle() {
+			return
+		}
+		s2 := w.dc.VerifSnapshot()
+		w.mu.Lock()
+		c2 := w.clock
+		w.mu.Unlock()
+		if c1 == c2 && s1.Total == s2.Total && s1.Waiters == s2.Waiters && fmt.Sprint(s1.FreeIDs) == fmt.Sprint(s2.FreeIDs) {
+			snap, confirmed = s2, true
+		} else {
+			w.mu.Lock()
+			w.hookHits["unconfirmed-conservation-snapshot"]++
+			w.mu.Unlock()
+		}
+	}
+	if !confirmed {
+		w.mu.Lock()
+		w.inconcl = append(w.inconcl, "pool snapshot did not stay unchanged between two settled states at a quiescent point")
+		w.mu.Unlock()
+		return
+	}
 	w.mu.Lock()
 	defer w.mu.Unlock()
 	w.hookHits["quiescence.checks"]++
@@ -322,13 +354,21 @@ func (w *world) probe(r *rand.Rand) bool {
 			w.resumeActor(ps[0])
 			continue
 		}
-		// blocked in the 3rd-case select (or on a lock nobody will release)
-		snap := w.dc.VerifSnapshot()
-		class := w.capacityClass(snap)
-		w.mu.Lock()
-		w.violate("C28", "probe-starved|"+class, fmt.Sprintf("fresh Invoke on a quiescent pool is parked in acquire (%s): total=%d max=%d free=%v waiters=%d; %s",
-			pos, snap.Total, snap.Max, snap.FreeIDs, snap.Waiters, w.connSummaryLocked()))
-		w.mu.Unlock()
+		// Not served, nothing to release: is it parked in the 3rd-case select with
+		// capacity available? Only a confirmed observation is a violation.
+		class, detail, verdict := w.confirmStarved(p, true)
+		switch verdict {
+		case "starved":
+			w.mu.Lock()
+			w.violate("C28", "probe-starved|"+class, "fresh Invoke on a quiescent pool is parked in acquire's 3rd-case select: "+detail)
+			w.mu.Unlock()
+		case "not":
+			continue // it moved on: look again
+		default:
+			w.mu.Lock()
+			w.inconcl = append(w.inconcl, "probe neither served nor confirmed starved ("+pos+"): "+detail)
+			w.mu.Unlock()
+		}
 		w.cancelCaller(p)
 		return w.drain(r)
 	}
@@ -368,4 +408,154 @@ func (w *world) close() bool {
 	wait(closed, "DC.Close did not return")
 	curWorld.Store(nil)
 	return ok
+}
+
+// confirmStarved decides whether caller a is starved: parked in acquire's
+// 3rd-case select (last hook pool.acquire.wait, goroutine in [select] inside
+// acquire, the pool itself reports a registered waiter) while the pool has
+// capacity for it (a live idle connection, a free slot, or counted connections
+// that are neither idle nor in use). The observation must be identical in two
+// consecutive settled snapshots with no boundary or hook event in between;
+// otherwise it is retried and finally reported as unconfirmed, never as a
+// violation. With drained=false connections may still be in use (mid-flight
+// check): then only a free slot or a live idle connection counts. verdict: "starved", "not" (the caller moved on), "unsure".
+func (w *world) confirmStarved(a *actor, drained bool) (class, detail, verdict string) {
+	type obs struct {
+		clock            int64
+		pos, hook, stack string
+		done, inUse      bool
+		total, max       int64
+		free             string
+		waiters          int
+		class            string
+		busy, notReady   int
+		parked           int
+	}
+	observe := func() (obs, bool) {
+		var o obs
+		if !w.settle() {
+			return o, false
+		}
+		snap := w.dc.VerifSnapshot()
+		o.class = w.capacityClass(snap)
+		w.mu.Lock()
+		defer w.mu.Unlock()
+		o.clock, o.pos, o.hook, o.done, o.inUse = w.clock, a.pos, a.lastHook, a.done, a.inInvoke != nil
+		for k := range w.lastDump {
+			if w.lastDump[k].id == a.gid {
+				o.stack = w.lastDump[k].stack
+			}
+		}
+		o.total, o.max, o.free, o.waiters = snap.Total, snap.Max, fmt.Sprint(snap.FreeIDs), snap.Waiters
+		for _, f := range w.conns {
+			if len(f.invs) > 0 {
+				o.busy++
+			}
+			if !f.killed && !f.readyClosed {
+				o.notReady++
+			}
+		}
+		for _, x := range w.callers {
+			if x.parkedAt != "" {
+				o.parked++
+			}
+		}
+		for _, x := range w.anons {
+			if x.parkedAt != "" {
+				o.parked++
+			}
+		}
+		return o, true
+	}
+	note := func(why string) {
+		w.mu.Lock()
+		w.hookHits["unconfirmed-starvation/"+why]++
+		w.mu.Unlock()
+	}
+	var last string
+	for attempt := 0; attempt < 6; attempt++ {
+		o1, ok := observe()
+		if !ok {
+			return "", "settle watchdog", "unsure"
+		}
+		if o1.done || o1.inUse {
+			return "", "", "not"
+		}
+		desc := fmt.Sprintf("pos=%s last_hook=%s total=%d max=%d free=%s waiters=%d in_use=%d not_ready=%d parked=%d", o1.pos, o1.hook, o1.total, o1.max, o1.free, o1.waiters, o1.busy, o1.notReady, o1.parked)
+		last = desc
+		if o1.pos != "waiting" || o1.hook != hpWait || !strings.Contains(o1.stack, "pool.(*DC).acquire") {
+			note("not-in-third-case-select:" + o1.pos)
+			continue
+		}
+		if o1.waiters < 1 {
+			note("pool-reports-no-waiter")
+			continue
+		}
+		if o1.parked > 0 {
+			note("actors-parked")
+			return "", desc, "unsure"
+		}
+		if drained && (o1.busy > 0 || o1.notReady > 0) {
+			note("world-not-drained")
+			return "", desc, "unsure"
+		}
+		if !drained && o1.class == "capacity-lost" {
+			// connections are still in use: being full is legitimate
+			return "", desc, "not"
+		}
+		o2, ok := observe()
+		if !ok {
+			return "", "settle watchdog", "unsure"
+		}
+		o1.stack, o2.stack = trimStack(o1.stack), trimStack(o2.stack)
+		if o1 != o2 {
+			note("observation-changed")
+			continue
+		}
+		w.mu.Lock()
+		conns := w.connSummaryLocked()
+		w.mu.Unlock()
+		return o1.class, desc + "; observed twice at logical time " + fmt.Sprint(o1.clock) + "; " + conns + "; goroutine: " + o1.stack, "starved"
+	}
+	return "", last, "unsure"
+}
+
+func trimStack(s string) string {
+	if len(s) > 1200 {
+		s = s[:1200]
+	}
+	return s
+}
+
+// midflightStarvation runs at a settled state with no actor parked at a hook
+// point (so nobody holds the pool mutex): a caller parked in the 3rd-case
+// select while a slot is free or a live connection is idle is starved even
+// though other connections are still in use: the pool only ever registers a
+// waiter when it is full and has nothing idle, every death wakes the waiters
+// and an idle connection is only stored when no waiter is registered.
+func (w *world) midflightStarvation() {
+	var cands []*actor
+	w.mu.Lock()
+	for _, a := range w.callers {
+		if !a.done && !a.cancelled && !a.starvedReported && a.parkedAt == "" && a.inInvoke == nil && a.pos == "waiting" && a.lastHook == hpWait {
+			cands = append(cands, a)
+		}
+	}
+	w.mu.Unlock()
+	if len(cands) == 0 {
+		return
+	}
+	snap := w.dc.VerifSnapshot()
+	if w.capacityClass(snap) == "capacity-lost" {
+		return
+	}
+	for _, a := range cands {
+		class, detail, verdict := w.confirmStarved(a, false)
+		if verdict == "starved" {
+			w.mu.Lock()
+			a.starvedReported = true
+			w.violate("C28", "starved-waiter|"+class, fmt.Sprintf("%s parked in acquire's 3rd-case select while capacity is available (other connections may still be in use): %s", a.name(), detail))
+			w.mu.Unlock()
+		}
+	}
 }
